@@ -128,6 +128,19 @@ def _int_cases(rng, n):
         xs = sorted({rng.randint(lo_x, 60) for _ in range(rng.randint(1, 10))})
         qs = sorted(rng.randint(lo_q, 70) for _ in range(rng.randint(1, 8)))
         s, f = rng.choice(VARIANTS)
+        if rng.random() < 0.25:
+            # values near both ends of the dtype's range (neighbours further apart than half the range); one dtype for
+            # samples and queries and the two comparison-only strategies, so that every comparison is an exact integer one
+            # (differences of such values, which 'closest' forms, leave the dtype in the pinned code as well)
+            dq = dx
+            if s == "closest":
+                s, f = rng.choice([v for v in VARIANTS if v[0] != "closest"])
+            ix, iq = np.iinfo(dx), np.iinfo(dq)
+            cand = [int(ix.min), int(ix.min) + 3, int(ix.min) // 2, int(ix.max) // 2, int(ix.max) - 3, int(ix.max)] \
+                + ([-1, 0, 1] if ix.min < 0 else [0, 1])
+            xs = sorted(set(rng.sample(cand, rng.randint(2, 4))))
+            lo_, hi_ = max(int(ix.min), int(iq.min)), min(int(ix.max), int(iq.max))
+            qs = sorted(min(max(v + rng.choice([-1, 0, 1]), lo_), hi_) for v in rng.sample(xs, min(3, len(xs))))
         yield {"x": [str(Fraction(v)) for v in xs], "q": [str(Fraction(v)) for v in qs], "s": s, "fill": f,
                "dtypes": [dx, dq], "layout": "contig,contig,contig"}
 
